@@ -58,14 +58,14 @@ def _digests_main(argv):
     out = {}
     if jobs <= 1:
         for j in jobs_list:
-            out.update(dict(campaign.run_chunk(j)["digests"]))
+            out.update(dict(campaign.run_chunk(j).get("digests", [])))
     else:
         import multiprocessing as mp
         from concurrent.futures import ProcessPoolExecutor
 
         with ProcessPoolExecutor(max_workers=jobs, mp_context=mp.get_context("fork")) as ex:
             for d in ex.map(campaign.run_chunk, jobs_list):
-                out.update(dict(d["digests"]))
+                out.update(dict(d.get("digests", [])))
     json.dump(out, sys.stdout)
 
 
